@@ -44,6 +44,7 @@ def check(repo, col, tier):
     _loc(repo, col)
     _named(repo, col)
     _basestate(repo, col)
+    keyclass_on_base(repo, col, "R-C11-keyclass")
     # inputs given through a view land on that view's rows: values and row indices stay paired (shared with C08/C19)
     col.rule("R-C11-pairing", "stimuli / clamps given through a view stay attached to the rows of that view", 3)
     from . import c08
@@ -152,6 +153,55 @@ def _basestate(repo, col, R="R-C11-basestate"):
         raise AnalysisError(f"only {n} guarded updates of base registries found")
 
 
+KEYCLASS_SETS = ("synapse_state_names", "synapse_param_names")
+KEYCLASS_OWN_OK = {
+    ("Module", "step"): "step() runs on the module handed to integrate(), i.e. on the base module itself (self is self.base)",
+}
+
+
+def keyclass_on_base(repo, col, R):
+    """Whether a key names a synaptic (edge) or a compartment (node) quantity decides which table a stored row label refers
+    to.  The registries of the base module hold entries of ALL synapse types; a view's own `synapse_state_names` /
+    `synapse_param_names` list only the types inside the view.  Classifying an entry of a base registry with the view's list
+    treats the synaptic entries of types outside the view as compartment entries (their edge labels are then matched
+    against compartment labels)."""
+    n = 0
+    for cn in ("Module", "View"):
+        for m in repo.classes[cn].methods.values():
+            ex = idx.expander(repo, m)
+            terms = list(ex.returns)
+            for s_ in ex.stores:
+                terms += [t_ for t_ in (s_.value, s_.key) if t_ is not None] + list(s_.guards)
+            for gs in ex.stmt_guards.values():
+                terms += [g for g in gs if isinstance(g, T)]
+            for gs in ex.return_guards:
+                terms += [g for g in gs if isinstance(g, T)]
+            done = set()
+            for t_ in terms:
+                for x in t_.walk():
+                    coll = None
+                    if x.op == "cmp" and x.name in ("in", "not in") and len(x.args) == 2:
+                        coll = x.args[1]
+                    elif x.op == "mcall" and x.name == "isin" and len(x.args) >= 2:
+                        coll = x.args[-1]
+                    if coll is None or coll.op != "attr" or coll.name not in KEYCLASS_SETS or coll.key() in done:
+                        continue
+                    done.add(coll.key())
+                    n += 1
+                    own = _is_self(coll.args[0])
+                    if own and (cn, m.name) in KEYCLASS_OWN_OK:
+                        col.ok(R, m, f"{cn}.{m.name}: key class decided with `{coll.pretty()}`", KEYCLASS_OWN_OK[(cn, m.name)], node=x.node or m.node)
+                        continue
+                    col.check(not own, R, m, f"{cn}.{m.name}: key class (node / edge) decided with the base module's list of synaptic names",
+                              coll.pretty(),
+                              f"`{x.short(80)}` consults `{coll.pretty()}`; on a view this lists only the synapse types inside the view, so a "
+                              f"synaptic entry of another type is classified as a compartment entry and its edge label is matched against "
+                              f"compartment labels", node=x.node or m.node)
+    col.rule(R, "node/edge classification of registry keys uses the base module's synaptic name lists", 5)
+    if n < 5:
+        raise AnalysisError(f"only {n} key-class tests found")
+
+
 def _named(repo, col, R="R-C11-filter"):
     """Selection by group / channel name / synapse type name, and the tables a View shows."""
     fi = repo.method("Module", "__getattr__")
@@ -159,6 +209,8 @@ def _named(repo, col, R="R-C11-filter"):
     # the views handed out for a group name / channel name / synapse-type name, searched in everything __getattr__ can return
     # (one `if` per kind with its own return, or one if/elif chain with a common tail -- the returned terms are the same)
     terms = list(ex.returns) + [s_.value for s_ in ex.stores if s_.value is not None]
+    # a local closure that builds the view (select + bookkeeping on the fresh view) is looked through for the value it returns
+    terms = [idx.inline(repo, fi, t_, value_only=True) for t_ in terms]
     sel_calls = [x for t_ in terms for x in t_.walk() if x.op == "mcall" and x.name == "select" and len(x.args) > 1]
     key_p = fi.params[1]
     # groups
